@@ -166,7 +166,7 @@ def build(kind):
     if t == "Mean":
         import lena.core
         sum_seq = {"py": lambda: None, "DSum": lena.math.DSum, "Sum": lena.math.Sum, "Count": lena.flow.Count,
-                   "Sum2": lambda: lena.core.Split([lena.math.Sum(), lena.math.Sum()])}[kind["inner"]]()
+                   "Sum2": lambda: lena.core.Split([lena.math.Sum(), lena.flow.Count()])}[kind["inner"]]()
         return lena.math.Mean(sum_seq=sum_seq, pass_on_empty=kind["poe"])
     if t == "VMC":
         if kind.get("given"):
@@ -338,7 +338,8 @@ def data_mismatch(kind, exp, got):
     t = kind["t"]
     half = kind.get("opt") == "half"
     if t == "Sum" and half:
-        return None if (type(got) is float and got == exp / 2.0) else "data"
+        # reset() sets the total to the int 0: the number counts, not whether it is an int or a float
+        return None if (type(got) in (int, float) and got == exp / 2.0) else "data"
     if t in ("Count", "Sum"):
         return None if (type(got) is int and got == exp) else "data"
     if t == "DSum":
